@@ -919,3 +919,14 @@ def m_try_from_signed(ex, callee, args):
     if ex.branch(nonneg):
         return ok(ex.do_cast(a, ty, 'IntToInt'))
     return err(Opaque('TryFromIntError'))
+
+
+@model(r'^std::option::Option::<.*>::as_ref$|^std::option::Option::<.*>::as_mut$')
+def m_opt_as_ref(ex, callee, args):
+    r = args[0]
+    v = deref_all(r)
+    if _opt_disc(ex, v):
+        if isinstance(v, Adt):
+            return some(Ref(v, 0))
+        return some(Ref(v.payload[1], 0))
+    return none()
